@@ -123,7 +123,7 @@ class Gen:
             return r.pick(COUNTS)
         if x < 95:
             return r.range(-4, 6)
-        return r.pick([INT_MAX, INT_MAX - 1, INT_MIN + 2])
+        return r.pick([INT_MAX, INT_MAX - 1, INT_MIN + 2, INT_MIN, INT_MIN])
 
     def add(self, kind, depth):
         """returns a list of commands: the add and, for temporary helpers, the drop"""
@@ -141,7 +141,7 @@ class Gen:
         if kind == 'c':
             n = self.count()
             self.stat('add_counter')
-            self.stat('count_' + ('int_min_plus_1' if n == INT_MIN + 1 else 'neg' if n < 0 else 'zero' if n == 0 else 'one' if n == 1 else 'big' if n > 1000 else 'many'))
+            self.stat('count_' + ('int_min' if n == INT_MIN else 'int_min_plus_1' if n == INT_MIN + 1 else 'neg' if n < 0 else 'zero' if n == 0 else 'one' if n == 1 else 'big' if n > 1000 else 'many'))
             cmd = ['c' + form, str(k), str(c)] + before + [str(n), str(h)]
         else:
             w = 1 if r.chance(55) else 0
@@ -229,6 +229,8 @@ def features(case, trace):
         if kind == 'c':
             n = int(c[-2])
             f.add('counter_n_le_0' if n <= 0 else 'counter_n_1' if n == 1 else 'counter_n_gt_1')
+            if n == INT_MIN:
+                f.add('counter_n_int_min')
             if c[0] == 'cinsert':
                 f.add('counter_insert')
         elif kind == 'q':
